@@ -47,5 +47,7 @@ SEEDED = [
     ("C03-8", "C03-SEP"),
     ("C03-9", "C03-NUM"),
     ("C03-10", "C03-SEP"),
+    ("C03-12", "C03-REF"),
+    ("C03-13", "C03-FILL"),
 ]
 MUTANTS = list(MUTANTS) + [_P("seed-" + sid, _os.path.join(_SEEDS, sid, "patch.diff"), rule) for sid, rule in SEEDED if _os.path.exists(_os.path.join(_SEEDS, sid, "patch.diff"))]
